@@ -2820,7 +2820,8 @@ class Env(cabc.MutableMapping):
     def _restore_after_swap(self, key, captured):
         """Undo one swapped key on scope exit (see ``_capture_for_swap``)."""
         if captured is not NotImplemented:
-            self._set_item(key, captured, thread_local=True)
+            # no sync: a mirrored partner is captured and restored on its own
+            self._set_item(key, captured, thread_local=True, check_sync=False)
             return
         self._d.del_locally(key)
         self._detyped = None
@@ -2851,13 +2852,22 @@ class Env(cabc.MutableMapping):
         old = {}
         local = self._d._local
         # single positional argument should be a dict-like object
+        def capture(k):
+            old[k] = self._capture_for_swap(k, local)
+            # a variable declared with ``sync=`` mirrors its value into a
+            # partner (e.g. the deprecated ``$RAISE_SUBPROC_ERROR``): that
+            # thread-local write has to be undone on exit as well
+            sync = self._vars[k].sync if k in self._vars else None
+            if sync and sync not in old:
+                old[sync] = self._capture_for_swap(sync, local)
+
         if other is not None:
             for k, v in other.items():
-                old[k] = self._capture_for_swap(k, local)
+                capture(k)
                 self._set_item(k, v, thread_local=True)
         # kwargs could also have been sent in
         for k, v in kwargs.items():
-            old[k] = self._capture_for_swap(k, local)
+            capture(k)
             self._set_item(k, v, thread_local=True)
 
         if overlay is not None:
